@@ -16,6 +16,9 @@ for mf in sorted(glob.glob(os.path.join(here, "seeded", "*", "meta.json")), key=
         continue
     m = json.load(open(mf))
     prop = m["property"]
+    if m["detection"] == "not caught":
+        print(name, "recorded as not caught (see meta.json): skipped", flush=True)
+        continue
     mo = re.search(r"caught by the (C\d+) check", m["detection"])
     check = mo.group(1) if mo else prop
     patch = os.path.join(os.path.dirname(mf), "patch.diff")
